@@ -260,7 +260,7 @@ func (r *runner) check(part string, s []byte, counted bool, calls []CaseDesc) {
 			r.w.DivCase(cs, counted, detail, c.with(s))
 			continue
 		}
-		if part == "A" || part == "R" || part == "B0" {
+		if part == "A" || part == "R" || part == "B0" || part == "D" {
 			r.w.DivFine(cs, fs, counted, detail, c.with(s))
 			continue
 		}
@@ -414,6 +414,33 @@ func Run(job *wk.Job, w *wk.Worker) error {
 		}
 		idx++
 	})
+	// part D: every string-literal item (alone, and before / after an escaped backslash) inside documents whose nesting
+	// gets DEEPER after the string - as a value, as a member name, with and without whitespace between the tokens
+	var lits []string
+	for _, it := range jt.StringItems {
+		lits = append(lits, it.Text)
+		if it.Name != "esc-bs" {
+			lits = append(lits, it.Text+"\\\\", "\\\\"+it.Text)
+		}
+	}
+	for _, body := range lits {
+		q := "\"" + body + "\""
+		for _, doc := range []string{
+			"[" + q + ",[[1]]]",
+			"{\"p\":" + q + ",\"q\":{\"r\":[1,{\"s\":2}]}}",
+			"{" + q + ":[[]],\"z\":{\"y\":{\"x\":[]}}}",
+			"[[" + q + "],{\"a\":[{\"b\":" + q + "}]}]",
+			"[ " + q + " , [ [ 1 ] ,\n{ } ] ]",
+		} {
+			if w.Mine(idx) {
+				in := []byte(doc)
+				w.Begin(idx, func() interface{} { return CaseDesc{Part: "D", Fn: "*"}.with(in) })
+				w.Nontrivial()
+				r.check("D", in, true, calls)
+			}
+			idx++
+		}
+	}
 	idx = r.partB("B0", p.Random, 0, idx, true, calls)
 	n := p.RandomSeeded
 	if n == 0 {
